@@ -288,15 +288,4 @@ def show_runes(w):
 def prepare_regex(ctx, module, quick):
     """build, regenerate the grammar and class tables, re-check the property module"""
     ctx.build_go()
-    ctx.extract(["regex"])
-    try:
-        ctx.prove(module)
-        if not quick:
-            ctx.leanchecker(module)
-    except Broken as b:
-        ctx.add_broken(b.what, b.detail)
-        ok, out = ctx.lake(["model"])
-        if not ok:
-            ctx.add_broken("model driver no longer builds", out[-2000:])
-            return False
-    return True
+    return ctx.prepare(["regex"], module, quick)
